@@ -1084,11 +1084,13 @@ inline int sim_main(World& w, int argc, char** argv)
     for (size_t i = regress_start; i < rp.size() && rc == 0 && !stopped; i++)
       handle(rp[i], i, 0, "regr");
   }
+  uint64_t after_regress = evaluations;
   for (uint64_t i = 0; i < enum_count && rc == 0 && !stopped; i++) {
     if (now_s() - t0 > time_limit)
       break;
     handle(w.enum_plan(enum_start + i, thorough), enum_start + i, 0, "enum");
   }
+  uint64_t enumerated_runs = evaluations - after_regress;
   uint64_t done_rand = 0;
   for (uint64_t i = 0; i < count && rc == 0 && !stopped; i++) {
     if (now_s() - t0 > time_limit)
@@ -1115,13 +1117,14 @@ inline int sim_main(World& w, int argc, char** argv)
   sj += "]";
   std::string extra = w.extra_summary();
   printf("SUMMARY {\"world\":\"%s\",\"build\":\"%s\",\"evaluations\":%" PRIu64
-         ",\"random_runs\":%" PRIu64 ",\"nontrivial_runs\":%" PRIu64 ",\"distinct\":%zu,"
+         ",\"random_runs\":%" PRIu64 ",\"enumerated_runs\":%" PRIu64 ",\"nontrivial_runs\":%" PRIu64 ",\"distinct\":%zu,"
          "\"det_checked\":%" PRIu64 ",\"violating_runs\":%" PRIu64 ",\"stopped\":%d,\"stopped_kind\":\"%s\",\"stopped_idx\":%" PRIu64
          ",\"wall_s\":%.3f,%s,\"samples\":%s%s%s}\n",
          w.name(),
          SIM_BUILD_NAME,
          evaluations,
          done_rand,
+         enumerated_runs,
          nontrivial_runs,
          distinct.size(),
          det_checked,
